@@ -52,6 +52,10 @@ type Site struct {
 	RootSlash  bool     `json:"root_slash"`  // root given with trailing slash
 	PathPrefix string   `json:"path_prefix"` // site declared as host/prefix
 	Origin     string   `json:"origin"`      // file (relative to the root) the site is loaded from: hidden. "" = Casketfile
+	// Before: the same Casketfile first declares another site whose root does not contain the Casketfile
+	Before bool `json:"before,omitempty"`
+	// Internal: `internal` lines in written order; entries that exist on disk are hidden files of the site
+	Internal []string `json:"internal,omitempty"`
 }
 
 func (s Site) origin() string {
@@ -83,7 +87,13 @@ func casketfile(s Site) string {
 		root += "/"
 	}
 	var sb strings.Builder
+	if s.Before {
+		fmt.Fprintf(&sb, "http://before.test:0 {\n\troot %s\n}\n", filepath.Join(t.Root, "internal"))
+	}
 	fmt.Fprintf(&sb, "http://localhost:0%s {\n\troot %s\n", s.PathPrefix, root)
+	for _, ip := range s.Internal {
+		fmt.Fprintf(&sb, "\tinternal %s\n", ip)
+	}
 	if s.Index != "" {
 		fmt.Fprintf(&sb, "\tindex %s\n", s.Index)
 	}
@@ -104,7 +114,14 @@ func casketfile(s Site) string {
 	return sb.String()
 }
 
-func c_hidden(s Site, rel string) bool { return rel == s.origin() }
+func c_hidden(s Site, rel string) bool {
+	for _, ip := range s.Internal {
+		if "/"+rel == ip {
+			return true
+		}
+	}
+	return rel == s.origin()
+}
 
 var locOK = regexp.MustCompile(`^/([^/\\]|$)`)
 
@@ -505,6 +522,10 @@ func genSite(t *rapid.T) Site {
 	s.RootSlash = rapid.Bool().Draw(t, "rootslash")
 	// the site may be declared under a path prefix (host/prefix): requests then carry the prefix
 	s.PathPrefix = rapid.SampledFrom([]string{"", "", "", "/pre", "/pre/fix"}).Draw(t, "prefix")
+	s.Before = rapid.IntRange(0, 2).Draw(t, "before") == 0
+	if s.PathPrefix == "" {
+		s.Internal = rapid.SampledFrom([][]string{nil, nil, {"/public/p1.txt"}, {"/api/private", "/public/p1.txt"}, {"/no/such/file.txt", "/noindex/e.html", "/public/p1.txt"}}).Draw(t, "internal")
+	}
 	return s
 }
 
